@@ -12,6 +12,8 @@ require (
 )
 
 require (
+	github.com/golang/groupcache v0.0.0-20190702054246-869f871628b6 // indirect
+	go.opencensus.io v0.22.3 // indirect
 	go.uber.org/atomic v1.6.0 // indirect
 	go.uber.org/multierr v1.5.0 // indirect
 	go.uber.org/zap v1.14.1 // indirect
